@@ -304,6 +304,57 @@ func Prop[C any](t *testing.T, draw func(*rapid.T) C, check func(C) error) {
 	})
 }
 
+// PropConc is Prop for checks that are pure functions of their case (no package-level state of their own): every
+// generated set of `workers` cases is first checked one case after the other, then all of them at once from as many
+// goroutines (released together, `rounds` times each). The library functions under test are called by several
+// goroutines with unrelated arguments, the way a node serves many peers; a check that passes alone and fails only while
+// others run has found state the library shares between callers. The failing case is written as the unit's replay (run
+// alone it passes; the failure message says so).
+func PropConc[C any](t *testing.T, draw func(*rapid.T) C, check func(C) error, workers, rounds int) {
+	name := t.Name()
+	rapid.Check(t, func(rt *rapid.T) {
+		cases := make([]C, workers)
+		for i := range cases {
+			cases[i] = draw(rt)
+			if err := Safe("", func() error { return check(cases[i]) }); err != nil {
+				WriteReplay(name, cases[i], err)
+				rt.Fatalf("%v", err)
+			}
+		}
+		var mu sync.Mutex
+		var first error
+		var firstCase C
+		start := make(chan struct{})
+		var wg sync.WaitGroup
+		for w := range cases {
+			wg.Add(1)
+			go func(w int) {
+				defer wg.Done()
+				<-start
+				for r := 0; r < rounds; r++ {
+					if err := Safe("", func() error { return check(cases[w]) }); err != nil {
+						mu.Lock()
+						if first == nil {
+							first, firstCase = err, cases[w]
+						}
+						mu.Unlock()
+						return
+					}
+				}
+			}(w)
+		}
+		close(start)
+		wg.Wait()
+		if first != nil {
+			key := os.Getenv("VERIF_PROP") + "/concurrent"
+			err := Failf(key, "a case that passes when checked alone fails while %d other cases are checked by other goroutines (shared state between callers): %v", workers-1, first)
+			WriteReplay(name, firstCase, err)
+			rt.Fatalf("%v", err)
+		}
+		G().Label(fmt.Sprintf("concurrent-case-sets:%d-goroutines", workers))
+	})
+}
+
 // Check is for enumerators and other non-rapid loops: fail the test with a replay.
 func Check[C any](t *testing.T, c C, check func(C) error) bool {
 	err := Safe("", func() error { return check(c) })
